@@ -2,6 +2,7 @@ package sim
 
 import (
 	"fmt"
+	"strings"
 	"math/rand"
 )
 
@@ -38,6 +39,7 @@ type knobs struct {
 	pStub       float64 // server-stream calls made the way generated stubs make them
 	pReject     float64 // server-stream calls turned down before the request is read
 	pPingPong   float64 // in-process bidi calls in lockstep
+	pHSplit     float64 // in-process bidi handlers with a sender goroutine of their own
 	pCause      float64 // caller contexts that end with a cause
 	pOuterBlank float64 // metadata values with blanks at their ends
 	maxMsgs     int
@@ -52,7 +54,7 @@ func defaultKnobs() knobs {
 		maxRPC:     3, pErr: 0.3, pPlainErr: 0.15, pDeviate: 0.2, pCancel: 0.2, pDeadline: 0.1, pCut: 0, pAdvance: 0.05,
 		pMutate: 0.1, pMD: 0.4, pSplit: 0.15, pBig: 0.03, pSleep: 0.1, pWaitCtx: 0.05, pHdrCalls: 0.3, pExtraResp: 0.05, pUnenc: 0.0,
 		pJunkDst: 0.2, pDyn: 0.05, pClosure: 0.3, pStopOnErr: 0.5, pCtxVals: 0.2, pCreds: 0.1, pTInt: 0.2, maxMsgs: 4, cloners: []int{0, 0, 1, 2, 3, 4},
-		pStub: 0.5, pCause: 0.3, pOuterBlank: 0, pReject: 0.08, pPingPong: 0.15,
+		pStub: 0.5, pCause: 0.3, pOuterBlank: 0, pReject: 0.08, pPingPong: 0.15, pHSplit: 0.1,
 	}
 }
 
@@ -623,6 +625,31 @@ func (g *gen) rpc(id int) *RPC {
 			}
 		}
 	}
+	if r.Kind == KBidi && !http && g.p(k.pHSplit) {
+		// full-duplex handler with a sender goroutine of its own: all sends move
+		// there; the handler itself receives and, between receives, sets metadata
+		var main, snd []Op
+		for _, o := range h {
+			if o.K == "send" {
+				snd = append(snd, o)
+				continue
+			}
+			if o.K == "mutate" && strings.HasPrefix(o.Ref, "s") {
+				continue // "after send k" has no meaning in the other goroutine
+			}
+			main = append(main, o)
+			if (o.K == "recv" || o.K == "recvall") && g.p(0.6) {
+				extra := Op{K: "settlr", MD: g.md(2)}
+				if g.p(0.3) {
+					extra.K = "sethdr"
+				}
+				main = append(main, extra)
+			}
+		}
+		if len(snd) > 0 {
+			h, r.Handler2 = main, snd
+		}
+	}
 	r.Client, r.Handler = c, h
 	if g.p(k.pDeadline) {
 		r.DeadlineN = g.dur()
@@ -717,7 +744,7 @@ func (g *gen) program(profile string, seed int64) *Program {
 		// a message that cannot be encoded cannot be copied between a generated
 		// and a dynamic representation either (the copy goes through the wire
 		// form): such calls use generated messages on both sides
-		for _, ops := range [][]Op{r.Client, r.Client2, r.Handler} {
+		for _, ops := range [][]Op{r.Client, r.Client2, r.Handler, r.Handler2} {
 			for _, o := range ops {
 				if o.Msg != nil && o.Msg.Kind == 4 {
 					r.DynC, r.DynH = false, false
@@ -738,7 +765,7 @@ func (g *gen) program(profile string, seed int64) *Program {
 		// a tiny send buffer moves a message in buffer-sized pieces: keep the
 		// number of scheduler steps per message bounded
 		for _, r := range p.RPCs {
-			for _, ops := range [][]Op{r.Client, r.Client2, r.Handler} {
+			for _, ops := range [][]Op{r.Client, r.Client2, r.Handler, r.Handler2} {
 				for i := range ops {
 					if ops[i].Msg != nil && ops[i].Msg.Size > 300*p.Cfg.SendBuf {
 						ops[i].Msg.Size = 300 * p.Cfg.SendBuf
